@@ -29,5 +29,5 @@ For each change i in {{1,2}} write into /tmp/seeded9/{pid}/m{{i}}/ :
   - patch.diff : `git diff` of the change against the pristine worktree (apply-able with `git apply`),
   - a demonstration: a Go test file (e.g. demo_test.go, say in which package directory it must be placed) or a small program that FAILS with the change applied and PASSES on the pristine tree; say exactly how to run it,
   - meta.json : {{"property": "{pid}", "summary": "...", "needs_to_manifest": "...", "files_changed": [...], "demo": {{"place_at": "...", "run": "..."}}, "verified": "what you ran and saw"}}.
-Verify both directions yourself (demo passes on pristine tree, fails with patch; full suite passes with patch). After saving each patch, restore the worktree to pristine (git checkout -- . and remove added files) before starting the next one, and leave the worktree pristine at the end. Keep your final answer short: the two summaries and confirmation of what you verified."""
+Verify both directions yourself (demo passes on pristine tree, fails with patch; full suite passes with patch). NEVER use `git stash` (the stash is shared by all worktrees of the repository and other people work in sibling worktrees at the same time; use `git diff > file; git checkout -- .; git apply file` instead). After saving each patch, restore the worktree to pristine (git checkout -- . and remove added files) before starting the next one, and leave the worktree pristine at the end. Keep your final answer short: the two summaries and confirmation of what you verified."""
 print(txt)
